@@ -8,6 +8,49 @@ namespace CffiVerif.Enum
 open CffiVerif.ConstExpr CffiVerif.CConstExpr
 open CffiVerif.GccEnum (isLeaf exprOk itemsOk)
 
+open CffiVerif.Generated in
+/-! ### `build_baseinttype` as translated from model.py, in closed form -/
+
+/-- `smallest_value >= ((-1) << (8*size-1)) and largest_value < (1 << (8*size-sign))`. -/
+def fits (size sign : Nat) (lo hi : Int) : Bool :=
+  decide (lo ≥ -(2 ^ (8 * size - 1) : Int)) && decide (hi < (2 ^ (8 * size - sign) : Int))
+
+def baseOfRangeSpec (lo hi : Int) : Except Err Base :=
+  if lo < 0 then
+    if fits Base.int.size 1 lo hi then .ok .int
+    else if fits Base.long.size 1 lo hi then .ok .long
+    else .error .cdef
+  else
+    if fits Base.uint.size 0 lo hi then .ok .uint
+    else if fits Base.ulong.size 0 lo hi then .ok .ulong
+    else .error .cdef
+
+theorem baseOfRange_def (lo hi : Int) : baseOfRange lo hi = baseOfRangeSpec lo hi := by
+  have s1 : lp64Sizeof "int" = 4 := by decide
+  have s2 : lp64Sizeof "long" = 8 := by decide
+  have s3 : lp64Sizeof "unsigned int" = 4 := by decide
+  have s4 : lp64Sizeof "unsigned long" = 8 := by decide
+  have n1 : Base.ofCName "int" = some .int := by decide
+  have n2 : Base.ofCName "long" = some .long := by decide
+  have n3 : Base.ofCName "unsigned int" = some .uint := by decide
+  have n4 : Base.ofCName "unsigned long" = some .ulong := by decide
+  have p31 : pyShl (-(1 : Int)) ((8 : Int) * 4 - 1) = -2147483648 := by decide
+  have p63 : pyShl (-(1 : Int)) ((8 : Int) * 8 - 1) = -9223372036854775808 := by decide
+  have q31 : pyShl (1 : Int) ((8 : Int) * 4 - 1) = 2147483648 := by decide
+  have q63 : pyShl (1 : Int) ((8 : Int) * 8 - 1) = 9223372036854775808 := by decide
+  have q32 : pyShl (1 : Int) ((8 : Int) * 4 - 0) = 4294967296 := by decide
+  have q64 : pyShl (1 : Int) ((8 : Int) * 8 - 0) = 18446744073709551616 := by decide
+  unfold baseOfRange Generated.ConstExprPy.build_baseinttype baseOfRangeSpec fits
+  by_cases hlo : lo < 0
+  · simp only [hlo, decide_true, if_true, s1, s2, p31, p63, q31, q63, Base.size]
+    by_cases a1 : lo ≥ -2147483648 <;> by_cases a2 : hi < 2147483648 <;>
+      by_cases a3 : lo ≥ -9223372036854775808 <;> by_cases a4 : hi < 9223372036854775808 <;>
+      simp [a1, a2, a3, a4, n1, n2]
+  · simp only [hlo, decide_false, if_false, Bool.false_eq_true, s3, s4, p31, p63, q32, q64, Base.size]
+    by_cases a1 : lo ≥ -2147483648 <;> by_cases a2 : hi < 4294967296 <;>
+      by_cases a3 : lo ≥ -9223372036854775808 <;> by_cases a4 : hi < 18446744073709551616 <;>
+      simp [a1, a2, a3, a4, n3, n4]
+
 /-! ### gcc's minimum precision vs. range tests -/
 
 theorem natPrec_le (a k s : Nat) (hk : 1 ≤ k) :
@@ -57,7 +100,8 @@ theorem baseType_eq (lo hi : Int) (h : lo ≤ hi) :
       (match baseOfRange lo hi with
        | .ok b => some b.toCType
        | .error _ => none) := by
-  unfold GccEnum.baseType baseOfRange fits
+  rw [baseOfRange_def]
+  unfold GccEnum.baseType baseOfRangeSpec fits
   by_cases hlo : lo < 0
   · have e32 : max (GccEnum.minPrecision lo true) (GccEnum.minPrecision hi true) ≤ 32 ↔
         (-2147483648 ≤ lo ∧ hi < 2147483648) := by
